@@ -750,9 +750,23 @@ func compactToSliceOfSlice(compact [][2]int) [][]int {
 //	process(buf)
 func (r *Regex) AppendAllIndex(dst [][2]int, b []byte, n int) [][2]int {
 	if n == 0 {
-		return nil
+		return dst
 	}
-	return r.engine.FindAllIndicesStreaming(b, n, dst)
+	// The engine fills the slice it is given from index 0, so hand it the unused
+	// tail of dst: the matches then land right behind dst's elements (no copy, no
+	// allocation) whenever the capacity suffices.
+	tail := dst[len(dst):]
+	res := r.engine.FindAllIndicesStreaming(b, n, tail)
+	if len(res) == 0 {
+		return dst
+	}
+	if cap(tail) > 0 && unsafe.SliceData(res) == unsafe.SliceData(tail) {
+		return dst[:len(dst)+len(res)]
+	}
+	if len(dst) == 0 {
+		return res
+	}
+	return append(dst, res...)
 }
 
 // AppendAllStringIndex appends all successive match index pairs for the string
